@@ -10075,18 +10075,38 @@ impl<
 			claimable_amt_msat += htlc.mpp_part.value;
 		}
 		mem::drop(per_peer_state);
+		// If the payment turns out to be incomplete we refuse to claim it. Its HTLCs were taken out
+		// of the set of claimable payments above, so put them back: they stay subject to the MPP
+		// timeout and to being failed back before their expiry, and the payment can still complete if
+		// the missing parts arrive.
+		let restore_incomplete_payment = |htlcs: Vec<ClaimableHTLC>| {
+			let mut claimable_payments = self.claimable_payments.lock().unwrap();
+			let claiming_payment = claimable_payments.pending_claiming_payments.remove(&payment_hash);
+			if let (Some(claiming_payment), false) = (claiming_payment, htlcs.is_empty()) {
+				match claimable_payments.claimable_payments.entry(payment_hash) {
+					hash_map::Entry::Occupied(mut entry) => entry.get_mut().htlcs.extend(htlcs),
+					hash_map::Entry::Vacant(entry) => {
+						entry.insert(ClaimablePayment {
+							purpose: claiming_payment.payment_purpose,
+							onion_fields: claiming_payment.onion_fields,
+							htlcs,
+						});
+					},
+				}
+			}
+		};
 		if sources.is_empty() || expected_amt_msat.is_none() {
-			self.claimable_payments.lock().unwrap().pending_claiming_payments.remove(&payment_hash);
 			log_info!(
 				self.logger,
 				"Attempted to claim an incomplete payment which no longer had any available HTLCs!"
 			);
+			restore_incomplete_payment(sources);
 			return;
 		}
 		if claimable_amt_msat != expected_amt_msat.unwrap() {
-			self.claimable_payments.lock().unwrap().pending_claiming_payments.remove(&payment_hash);
 			log_info!(self.logger, "Attempted to claim an incomplete payment, expected {} msat, had {} available to claim.",
 				expected_amt_msat.unwrap(), claimable_amt_msat);
+			restore_incomplete_payment(sources);
 			return;
 		}
 		if valid_mpp {
